@@ -1,4 +1,4 @@
-CONSTANTS Callers <- C3  MaxId = 4  StartIds = {3}  NPkts = 3  Foreign <- F0  QMax = 9  Timed = TRUE  TO <- TO3b  DialBound = 2  ReadTO = 1  Horizon = 9  SerialDial = FALSE  DialModes <- AllModes  MayClose = TRUE  Transient <- LocalAll
+CONSTANTS Callers <- C3  MaxId = 4  StartIds = {3}  NPkts = 3  Foreign <- F0  QMax = 9  Timed = TRUE  TO <- TO3b  DialBound = 2  ReadTO = 1  Horizon = 9  SerialDial = FALSE  DialModes <- AllModes  MayClose = TRUE  RecvOffers = TRUE  Stamp = FALSE  InlineRecv = FALSE  Transient <- LocalAll
 SPECIFICATION Spec
 INVARIANTS TypeOK ReplyMatches IdNonZero IdsDistinct OnePacketOneCaller AcctQueue AcctMgr AcctResp NoResidue DeadlineInv
 PROPERTIES LateReplyHarmless OnlyAddressee
